@@ -38,7 +38,7 @@ type c09Params struct {
 	stateMenu      bool
 	lateCloser     bool
 	discWriteFails int  // socket writes of the client's disconnect responses that may fail (transient error)
-	secondApp      bool // a second application goroutine calls Send 20 ms after the first one in every interval
+	secondApp      bool // a second application goroutine calls Send 2 ms after the first one in every interval
 	hbWriteFails   int  // socket writes of connection-state requests that may fail: the heartbeat has failed
 }
 
@@ -191,7 +191,7 @@ func c09Run(p c09Params) func() {
 			if p.secondApp {
 				mc.GoEnv("app2", func() {
 					for i := 0; ; i++ {
-						mc.Sleep(H/4 + 23*ms)
+						mc.Sleep(H/4 + 5*ms)
 						if mc.Now() >= end {
 							return
 						}
@@ -199,7 +199,7 @@ func c09Run(p c09Params) func() {
 						t0 := mc.Now()
 						err := t.Send(Msg(500 + i))
 						mc.Log(Ret{"Send", 500 + i, errStr(err), t0})
-						if d := H - (mc.Now() - t0) - H/4 - 23*ms; d > 0 {
+						if d := H - (mc.Now() - t0) - H/4 - 5*ms; d > 0 {
 							mc.Sleep(d)
 						}
 					}
@@ -738,8 +738,16 @@ func c09Oracle(p c09Params) func(tr *mc.Trace) []h.Violation {
 				if term != nil && tc <= term.from && e.T >= term.from && x.Err == "" && e.T > tc {
 					bad(kf("pending-send-succeeds-at-termination", term.from), "Send %d pending when the tunnel terminated at %v reported success", x.ID, term.from)
 				}
-				if e.T-tc > T {
-					bad("send-late", "Send %d called %v returned %v", x.ID, tc, e.T)
+				// a Send takes at most the response timeout - counted from the moment it is the only one:
+				// a Send called while another one is pending first waits for that one
+				queuedBehind := mc.Duration(0)
+				for oid, otc := range calls {
+					if otr, ok := rets[oid]; ok && oid != x.ID && otc <= tc && otr > tc && otr-tc > queuedBehind {
+						queuedBehind = otr - tc
+					}
+				}
+				if e.T-tc > T+queuedBehind {
+					bad("send-late", "Send %d called %v returned %v (it was queued behind another Send for %v; the response timeout is %v)", x.ID, tc, e.T, queuedBehind, T)
 				}
 				if epc == epr && epc.mode == mConnected && x.Err != "" && tc != epc.from && e.T < closeAt {
 					bad(kf("send-fails-while-connected", tc), "Send %d (called %v, returned %v with %q) failed although the tunnel was connected on channel %d throughout (%s)", x.ID, tc, e.T, x.Err, epc.ch, desc)
